@@ -192,10 +192,18 @@ def run(case, ctx):
                     [x for x in old_lines if x not in new][:3],
                     [x for x in new if x not in old_lines][:3])
             else:
-                data = bytearray(bytes.fromhex(fl['hex']))
+                data = bytearray(G.file_bytes(fl))
                 j = m['j'] % len(data)
-                if m['op'] in ('sub', 'trail', 'addline'):
+                if m['op'] in ('sub', 'trail'):
                     data[j] ^= 0x55
+                elif m['op'] == 'addline':
+                    j = len(data)
+                    data.append(0x51)       # one byte more at the end
+                elif m['op'] == 'delline':
+                    if len(data) < 2:
+                        continue
+                    j = len(data) - 1
+                    del data[j]             # one byte less at the end
                 elif m['op'] in ('ins', 'ins_na'):
                     data.insert(j, 0x51)
                 else:
